@@ -42,7 +42,15 @@ def maxDKLen : Int := 1024
 /-- the allocator's limit: `pbkdf2.Key` with a longer key aborts (panic or out-of-memory) -/
 def allocLimit : Int := 2 ^ 40
 
-/-- `decryptKey` after the repairs of F4 and F22 (dklen — both ways — and IV length are checked before use). -/
+/-- the largest iteration count accepted from a key file (`maxPBKDF2C`) -/
+def maxIter : Int := 10000000
+
+/-- the patience limit: `pbkdf2.Key` with more iterations does not come back in any useful time (2⁴⁰ HMAC rounds are
+days; the counts a crafted file can name go up to 2⁶³) — for "returns a result or an error" as good as never -/
+def iterLimit : Int := 2 ^ 40
+
+/-- `decryptKey` after the repairs of F4, F22 and F29 (dklen — both ways —, the iteration count and the IV length are
+checked before use). -/
 def decryptKey (k : KeyFile) : Outcome Unit :=
   if k.version ≠ 3 then .err "version" else
   if k.cipher ≠ cipherAlgorithm then .err "cipher" else
@@ -53,12 +61,30 @@ def decryptKey (k : KeyFile) : Outcome Unit :=
   if !k.ctHexOK then .err "ct-hex" else
   if !k.saltHexOK then .err "salt-hex" else
   if k.dklen < 32 ∨ k.dklen > maxDKLen then .err "dklen" else
+  if k.c > maxIter then .err "c" else
   if k.ivLen ≠ 16 then .err "iv-len" else
   -- pbkdf2.Key(passwd, salt, c, dklen): fine for 0 ≤ dklen ≤ maxDKLen < allocLimit and any c (c ≤ 1 means a single round)
   if k.dklen ≥ allocLimit then .panic "pbkdf2.Key: makeslice / out of memory" else
+  if k.c ≥ iterLimit then .panic "pbkdf2.Key: does not return" else
   -- derivedKey[16:32]: fine, the derived key has dklen ≥ 32 bytes
   if !k.macOK then .err "mac" else
   -- aes.NewCipher(derivedKey[:16]) with a 16-byte key, cipher.NewCTR with a 16-byte IV
+  .ok ()
+
+/-- after F22, before F29: no upper bound on the iteration count -/
+def decryptKeyF22 (k : KeyFile) : Outcome Unit :=
+  if k.version ≠ 3 then .err "version" else
+  if k.cipher ≠ cipherAlgorithm then .err "cipher" else
+  if k.kdf ≠ kdfName then .err "kdf" else
+  if k.prf ≠ prfName then .err "prf" else
+  if !k.macHexOK then .err "mac-hex" else
+  if !k.ivHexOK then .err "iv-hex" else
+  if !k.ctHexOK then .err "ct-hex" else
+  if !k.saltHexOK then .err "salt-hex" else
+  if k.dklen < 32 ∨ k.dklen > maxDKLen then .err "dklen" else
+  if k.ivLen ≠ 16 then .err "iv-len" else
+  if k.c ≥ iterLimit then .panic "pbkdf2.Key: does not return" else
+  if !k.macOK then .err "mac" else
   .ok ()
 
 /-- after F4, before F22: no upper bound on `dklen` -/
